@@ -29,9 +29,9 @@ func init() {
 		Level: "exploration",
 		Rule: "config: both defaults x accept/reject/store/discard lists (0-4 entries from a 16-domain pool incl. sub-domain, near-miss, trailing-dot and " +
 			"IP-literal entries, written lower/MIXED/UPPER case) x 0-3 reject-origin patterns (* and ? at start/middle/end, adjacent stars, longer/shorter than " +
-			"the subject, exact, empty) x MaxRecipients {1,2,5}, written to INBUCKET_SMTP_* variables and loaded by config.Process(); 200 domains per " +
+			"the subject, exact, empty) x MaxRecipients {0,1,2,5} (0: every RCPT refused, nothing stored), written to INBUCKET_SMTP_* variables and loaded by config.Process(); 200 domains per " +
 			"configuration (pool in random/upper case, listed entries re-cased, sub-domains, near-misses, pattern instances and near-misses, empty, random). " +
-			"session: same configurations, 1-3 transactions of MAIL (incl. <>) + 1..Max+3 RCPT + DATA/RSET with plain atom@domain addresses; a quarter with " +
+			"session: same configurations, 1-3 transactions of MAIL (incl. <>) + 1..Max+3 RCPT + DATA/RSET (a transaction without an accepted recipient ends with RSET or with a DATA attempt, which must store nothing) with plain atom@domain addresses; a quarter with " +
 			"an allowing Go listener, a third with a real Lua script (file + luahost.New) whose before.mail_from_accepted / before.rcpt_to_accepted / " +
 			"before.message_stored hooks are absent or take no decision (raise a string/table/nil, runtime error, modify-then-raise, return nothing/nil/false/" +
 			"smtp.defer()/a value of the wrong type, raise for some inputs only). Half of the reject-origin patterns are composed by a random walk over a " +
@@ -59,6 +59,9 @@ func init() {
 				"messages_stored": 1500, "recipients_discarded": 1000, "transactions_at_limit": 500,
 				"wild_pairs": 400000, "wild_match_true": 20000, "wild_match_false": 100000,
 				"distinct_nontrivial": 500,
+				// added after seeded change C05-13: the limit corner 0 on live sessions
+				"sessions_limit_zero": 1000, "rcpt_refused_limit_zero": 400, "rcpt_refused_limit_zero_allowed_by_extension": 20,
+				"transactions_limit_zero": 500, "data_attempts_without_recipient": 500, "data_attempts_without_recipient_limit_zero": 150,
 				// added after seeded change C05-8: every pair also through the policy predicate
 				"origin_single_pattern_pairs": 400000,
 				// added after seeded change C05-7: sessions under a Lua script that takes no decision
@@ -392,6 +395,9 @@ func sessionCase(c *fw.Ctx, r *fw.Rand) {
 		return
 	}
 	c.Count("sessions", 1)
+	if m.Max == 0 {
+		c.Count("sessions_limit_zero", 1)
+	}
 	refusedData := false
 	outcomes := map[string]bool{}
 	extraSeen := map[string]bool{} // further non-trivial signatures: pattern arrangements, script hook kinds x decisions
@@ -555,6 +561,13 @@ func sessionCase(c *fw.Ctx, r *fw.Rand) {
 			default:
 				c.Count("rcpt_refused_limit", 1)
 				outcomes["rcpt:limit"] = true
+				if m.Max == 0 {
+					c.Count("rcpt_refused_limit_zero", 1)
+					if allowExt && !allowShadowed && strings.HasPrefix(local, "al") {
+						// an explicit allow of an extension overrides the lists, never the limit
+						c.Count("rcpt_refused_limit_zero_allowed_by_extension", 1)
+					}
+				}
 			}
 		}
 		if len(accepted) > m.Max {
@@ -563,6 +576,33 @@ func sessionCase(c *fw.Ctx, r *fw.Rand) {
 		}
 		if len(accepted) == m.Max {
 			c.Count("transactions_at_limit", 1)
+		}
+		if m.Max == 0 {
+			c.Count("transactions_limit_zero", 1)
+		}
+		// Added after seeded change C05-13: a transaction in which no RCPT was accepted (limit 0, or
+		// every recipient refused by the lists) holds no recipient, so nothing may reach the store
+		// for it.  Half of them try DATA before the RSET.  The reply to that DATA is C03's business and
+		// not judged; if the server does start a data block it gets a message, and the store check
+		// below (accepted is empty, the store must hold what it held before) decides.
+		if len(accepted) == 0 && r.Bool() {
+			rep, err := ss.Cmd("DATA")
+			if err != nil {
+				fail("C05:reply-shape", err.Error())
+				return
+			}
+			c.Count("data_attempts_without_recipient", 1)
+			if m.Max == 0 {
+				c.Count("data_attempts_without_recipient_limit_zero", 1)
+			}
+			outcomes["end:data-without-recipient"] = true
+			if rep.Code == 354 {
+				c.Count("data_without_recipient_answered_354", 1)
+				if rep, err = ss.Cmd(dataShapes[0] + "."); err != nil {
+					fail("C05:reply-shape", err.Error())
+					return
+				}
+			}
 		}
 		// end of transaction
 		if len(accepted) == 0 || r.Chance(1, 8) {
